@@ -74,7 +74,7 @@ def inputs(key, outpath):
     top3 = {"system.top": tt / "system.top", "ffnonbonded.itp": tt / "ffnonbonded.itp", "test.itp": tt / "test.itp"}
     if key == "gp_min":
         return "gen_params", {"PEO.martini.3.itp": gp / "PEO.martini.3.itp"}, dict(
-            name="PEO", outpath=outpath, inpath=[Path("PEO.martini.3.itp")], seq=["PEO:4"])
+            name="PEO", outpath=outpath, inpath=[Path("PEO.martini.3.itp")], seq=["PEO:120"])   # > 8 KiB of .itp
     if key == "gp_dna":
         return "gen_params", {}, dict(name="DNA", outpath=outpath, lib=["parmbsc1"], inpath=[],
                                       seq=["DA5:1", "DT:1", "DG:1", "DC3:1"], dsdna=True)
@@ -203,7 +203,16 @@ class _Handle:
         return self
 
     def __exit__(self, *a):
-        return self._fh.__exit__(*a)
+        ip = self._ip
+        if ip.prog != "gen_params" or a[0] is not None:
+            return self._fh.__exit__(*a)
+        # end of gen_params' `with deferred_open(...)` block = stage "close" of the specification.  An exception "before
+        # close" is one that leaves the block: the handle is closed on the way out
+        res = self._fh.__exit__(*a)
+        ip.maybe_crash("close", "before")
+        ip.stage_done("close")
+        ip.maybe_crash("close", "after")
+        return res
 
     def __getattr__(self, name):
         return getattr(self._fh, name)
@@ -224,6 +233,8 @@ class Interposer:
         self.undo = []
         self.handles = []
         self.missing = []
+        self.open_handles = {}    # realpath of temp file -> _Handle (shared with World.snapshot)
+        self.fake_exdev = False
 
     # ---- crash / events
     def maybe_crash(self, stage, when):
@@ -232,7 +243,9 @@ class Interposer:
             raise (InjectedBaseCrash if self.exc == "BaseException" else InjectedCrash)("injected at %s/%s" % (stage, when))
 
     def stage_done(self, stage):
-        for h in self.handles:
+        # gen_seq's plain handle is flushed so that the file can be read; the handles of the deferred writer are NOT touched:
+        # whether a buffered tail exists at the moment of the writer's move is part of what is checked (content "buffered")
+        for h in (self.handles if self.prog == "gen_seq" else []):
             try:
                 if not h.closed:
                     h.flush()
@@ -303,6 +316,14 @@ class Interposer:
             fh = orig(*a, **k)
             h = _Handle(fh, ip)
             ip.handles.append(fh)
+            try:    # which temp file belongs to this handle (the entry the writer registered for this path)
+                from vermouth.file_writer import DeferredFileWriter
+                want = Path(str(a[0])).parent.resolve() / Path(str(a[0])).name
+                for tmp_path, final, _ in DeferredFileWriter().open_files:
+                    if Path(str(final)) == want:
+                        ip.open_handles[os.path.realpath(tmp_path)] = h
+            except Exception:
+                pass
             ip.stage_done("open")
             ip.maybe_crash("open", "after")
             return h
@@ -346,6 +367,11 @@ class Interposer:
             # the final move of _write_file: temp file -> destination
             if os.path.realpath(os.path.dirname(str(src))) == tmpdir:
                 ip.maybe_crash("flush", "mid")
+                if ip.fake_exdev:
+                    # no second file system available: do what shutil.move does when os.rename fails with EXDEV
+                    fw.shutil.copy2(src, dst)
+                    os.unlink(src)
+                    return dst
             return real_move(src, dst, *a, **k)
         self.patch_attr(fw, "shutil", _Proxy(fw.shutil, move=move))
 
@@ -470,6 +496,12 @@ class World:
         # inout: the file at the output path is one of the run's own input files ("same": the input option names the output
         # path; "link": it names a symbolic link to it; "dots": it names ./sub/../<name>)
         self.inout = case.get("inout", "no")
+        # dev = "cross": the temp directory is on another file system than the output directory (created under /dev/shm and
+        # removed by the check itself); if no second file system is there the cross-device move is emulated (fake_exdev)
+        self.dev = case.get("dev", "same")
+        self.shm = None
+        self.fake_exdev = False
+        self.open_handles = {}
         self.inp_bytes = None     # bytes of that input file
         self.input_links = {}     # relative name -> destination of symbolic links that are inputs
         self.path_of = {}
@@ -523,6 +555,17 @@ class World:
     def setup(self):
         shutil.rmtree(self.root, ignore_errors=True)
         self.run.mkdir(parents=True)
+        if self.dev == "cross":
+            try:
+                base = Path("/dev/shm") / ("verif_c20_%d" % os.getppid()) / ("%s_%d" % (self.case["id"], os.getpid()))
+                base.mkdir(parents=True)
+                if os.stat(base).st_dev != os.stat(self.run).st_dev:
+                    self.shm, self.tmp = base, base / "tmp"
+                else:
+                    shutil.rmtree(base, ignore_errors=True)
+                    self.fake_exdev = True
+            except OSError:
+                self.fake_exdev = True
         self.tmp.mkdir()
         if self.route == "symdir":
             (self.run / "real_out").mkdir()
@@ -648,9 +691,13 @@ class World:
             queued.add(os.path.realpath(tmp_path))
             final = Path(str(final))      # the queue names a directory entry: do not resolve a link at the last component
             rel = os.path.relpath(os.path.join(os.path.realpath(final.parent), final.name), runreal)
+            hd = self.open_handles.get(os.path.realpath(tmp_path))
             try:
-                data = Path(tmp_path).read_bytes()
-                cont = self.classify(data)
+                if hd is not None and not hd.closed:
+                    # the handle is open: what is on disk is some prefix, the rest sits in the handle's buffer
+                    cont = "buffered" if hd._n > 0 else "empty"
+                else:
+                    cont = self.classify(Path(tmp_path).read_bytes())
             except OSError:
                 cont = "missing-temp-file"
             queue.append({"target": self.abs_of.get(rel, "?" + rel), "content": cont})
@@ -728,7 +775,8 @@ def run_case(case, root, refs):
             prog, files, kw = first if (first is not None and r == 1) else inputs(rn["input"], out)
             w.add_inputs(files)
             w.refs[r] = refs[(rn["input"], r)]
-            head = {"run": r, "var": {"prog": prog, "on": sorted(rn["on"]), "route": w.route, "inout": w.inout}, "target": rn["target"]}
+            head = {"run": r, "var": {"prog": prog, "on": sorted(rn["on"]), "route": w.route, "inout": w.inout, "dev": w.dev},
+                    "target": rn["target"]}
             if case.get("fresh_queue") and r > 1:
                 # a new process: the singleton starts empty, the temp files of the old process stay on disk
                 DeferredFileWriter().open_files.clear()
@@ -738,6 +786,7 @@ def run_case(case, root, refs):
             ev.update(snap0)
             events.append(ev)
             ip = Interposer(prog, rn.get("crash"), rn.get("exc", "Exception"), w.snapshot)
+            ip.open_handles, ip.fake_exdev = w.open_handles, w.fake_exdev
             if case.get("instrument", True):
                 try:
                     ip.install()
@@ -784,6 +833,9 @@ def run_case(case, root, refs):
     finally:
         os.chdir(cwd)
         tempfile.tempdir = None
+        if w.shm is not None:
+            shutil.rmtree(w.shm, ignore_errors=True)
+    info["cross_device"] = "real (/dev/shm)" if w.shm is not None else ("emulated" if w.fake_exdev else "no")
     return {"events": events, "info": info}
 
 
